@@ -22,7 +22,8 @@ Proof. exact digit_sets_tex. Qed.
    offsets 2e9 / 4e9 / 6e9 *)
 Theorem C05_units_handled :
   forallb (fun u => match dimen_of_unit u with Some _ => negb (match u with [] => true | _ => false end) | None => false end)
-          (dimen_units ++ mudimen_units ++ fil_units) = true /\ fil_units = [s_filll; s_fill; s_fil] /\
+          (dimen_units ++ mudimen_units ++ fil_units ++ fil_units_minus) = true /\
+  (fil_units = [s_filll; s_fill; s_fil] /\ fil_units_minus = [s_filll; s_fill; s_fil]) /\
   dimen_of_unit s_fil = Some (1 + two_e9)%Q /\ dimen_of_unit s_fill = Some (1 + four_e9)%Q /\ dimen_of_unit s_filll = Some (1 + six_e9)%Q.
 Proof. exact (conj units_handled (conj fil_units_longest_first fil_encoding)). Qed.
 
@@ -113,6 +114,10 @@ Proof. exact read_grouping_balanced. Qed.
 Theorem C05_read_grouping_absent : forall o c s,
   match s with [] => True | t :: _ => tok_is_delim t o = false end -> read_grouping o c s = (None, s).
 Proof. exact read_grouping_absent. Qed.
+
+(* a following escape token -- e.g. the control symbols \[ \( \< named like the opening delimiter -- is not an opener *)
+Theorem C05_read_grouping_absent_escape : forall o c k e r, read_grouping o c (Cs k e :: r) = (None, Cs k e :: r).
+Proof. exact read_grouping_absent_escape. Qed.
 
 Theorem C05_read_token_balanced : forall x y body rest,
   balanced b_open b_close body -> read_token (Ch 1 x :: body ++ Ch 2 y :: rest) = (Some body, rest).
